@@ -26,7 +26,8 @@ Definition R (ign : bool) (nm : list name) (m : mock) (st : mst) : Prop :=
   match finish_last m with
   | inl m' => s_pend st = None /\ map abs (m_exps m') = s_xs st /\ Forall wfE (m_exps m') /\ last_ok m' = true /\ fnames (s_xs st) = nm /\
               m_ignore m' = ign /\ m_aorder m' = s_order st /\ m_enabled m' = true
-  | inr fl => exists d, s_pend st = Some d /\ dkind_of (f_kind fl) = Some d
+  | inr fl => exists d, s_pend st = Some d /\ dkind_of (f_kind fl) = Some d /\
+                        existsb e_ooo (m_exps m) = existsb x_ooo (s_xs st)   (* the out-of-order marks stay related while a deviation waits *)
   end.
 
 Lemma wf_no_ign es : Forall wfE es -> no_ign es.
@@ -123,7 +124,7 @@ Lemma sim_call ign nm m st f its want :
 Proof.
   intros [Hig [Hao [Hen HR]]] Hnd HU. unfold actual_call, m_call. cbn [sc_f sc_items sc_want mk_call].
   destruct (finish_last m) as [m1|fl0] eqn:FL.
-  2: { destruct HR as [d [X Y]]. rewrite X. exists d. auto. }
+  2: { destruct HR as [d [X [Y _]]]. rewrite X. exists d. auto. }
   destruct HR as [Hpe [Habs [Hwf [Hlo [Hnm [Hig1 [Hao1 Hen1]]]]]]]. rewrite Hpe.
   change (m_ignore (with_exps m1 (m_exps m1) None)) with (m_ignore m1).
   change (m_enabled (with_exps m1 (m_exps m1) None)) with (m_enabled m1).
@@ -193,7 +194,7 @@ Proof.
               split; [|split; [exact HU|split; [reflexivity|split; [|reflexivity]]]].
               ** unfold R. cbn [m_ignore m_aorder m_enabled with_exps s_order s_xs s_pend]. split; [first [exact Hig1|reflexivity]|]. split; [reflexivity|]. split; [first [exact Hen1|reflexivity]|].
                  unfold finish_last. cbn [m_last with_exps m_exps]. rewrite CC. eexists. split; [reflexivity|]. rewrite K.
-                 destruct (existsb _ es2); reflexivity.
+                 split; [destruct (existsb _ es2); reflexivity|]. rewrite <- A2, existsb_map. reflexivity.
               ** unfold last_outs. cbn [m_last with_exps]. apply nothing_outs_ok. exact LEN.
       * destruct WP as [p [FD K]].
         assert (CN : consume f its (s_order st + 1) (s_xs st) = None).
@@ -274,7 +275,7 @@ Proof.
         -- cbn [run_from]. destruct (acc_rel_obs (add_effect a no_effect) ma None None) as [X Y].
            { destruct HA as [A B]. split; [exact A|exact B]. }
            split; [|exact Y]. unfold proj, lift. rewrite X. reflexivity.
-    + destruct HR as [d [Hp Hd]]. rewrite Hp. cbn [app].
+    + destruct HR as [d [Hp [Hd _]]]. rewrite Hp. cbn [app].
       destruct (acc_rel_obs a ma (Some (i, fl)) (Some (i, d)) HA) as [X Y]. split; [|exact Y].
       unfold proj, lift. rewrite X. cbn. rewrite Hd. reflexivity.
   - cbn in Hnd. apply andb_true_iff in Hnd. destruct Hnd as [Hn1 Hn2].
@@ -339,7 +340,7 @@ Qed.
 Lemma parse_exps_inv : forall ops es cs, parse_exps ops = Some (es, cs) -> ops = map exp_op es ++ map call_op cs ++ [OCheck].
 Proof.
   induction ops as [|o r IH]; intros es cs H; [discriminate|].
-  destruct o as [n f ps outs obj ret ign| | | | | | | |];
+  destruct o as [n f ps outs obj ret ign| | | | | | | | |];
     try (match type of H with parse_exps (?o :: r) = _ =>
            change (match parse_calls (o :: r) with Some cs0 => Some ([], cs0) | None => None end = Some (es, cs)) in H end;
          destruct (parse_calls _) as [l|] eqn:E in H; [|discriminate]; inversion H; subst; cbn [map app]; apply (parse_calls_inv _ _ E)).
